@@ -118,6 +118,13 @@ Choices ==
                           <<<<"a", Lit(2)>>, <<"b", RdV("a")>>>>}}
          \cup {[Node(0, "if") EXCEPT !.cond = RdV("b")]}
          \cup {[Node(0, "loop") EXCEPT !.form = "count", !.cnt = 2, !.lv = "b"]}
+    [] Family = "escw" ->
+         \* a subtree that is deferred by a forward reference AND assigns variables that outlive
+         \* it: the design re-evaluates it in the environment of its place but cannot hand its
+         \* assignments to the siblings already rendered (see DeferredWrites below)
+         {[Node(0, "loop") EXCEPT !.form = "count", !.cnt = 2], [Node(0, "if") EXCEPT !.cond = Lt("b", 2)]}
+         \cup {[Node(0, "leaf") EXCEPT !.rd = r, !.ref = t] : r \in {"b"}, t \in {0} \cup ((Sz + 2)..MaxNodes)}
+         \cup {[Node(0, "var") EXCEPT !.asg = <<<<"b", Inc("b")>>>>]}
     [] Family = "scope0" ->
          \* no initial <var>: the first assignment may happen inside an open scope
          {[Node(0, "g") EXCEPT !.loc = l] : l \in {<<>>, <<<<"a", 1>>>>, <<<<"b", 2>>>>}}
@@ -195,7 +202,7 @@ SpecsRefFree == \A n \in SeqToSet(Flatten(doc)) :
 \* family-specific well-formedness of a finished document
 DocOK ==
     /\ doc # <<>>
-    /\ AllNodesOK(doc)
+    /\ (Family # "escw" => AllNodesOK(doc))
     /\ SpecsRefFree
     /\ \A n \in SeqToSet(Flatten(doc)) :
           /\ (n.k = "leaf" /\ n.ref > 0 /\ HasId(doc, n.ref)) =>
@@ -606,11 +613,30 @@ NoStale(items) == \A i \in 1..Len(items) : ~items[i].stale
 \* The observable outcome equals the reference meaning: result class (C17
 \* LimitExact, C10 unsatisfiable => error), rendered items with the values
 \* their probes read (C15 LexicalScoping, C16, C18), in document order.
+\* (Family "escw" admits documents in which a deferred subtree assigns variables that
+\* outlive it.  There the design keeps the two halves of C15 it can keep - the subtree is
+\* evaluated in the environment of its place, and a failed attempt leaves no trace - but
+\* the siblings after it were rendered before its assignments existed: the outcome may
+\* differ from the reference meaning.  Recorded as the finding DeferredWrites.)
 ResultIsIdeal ==
-    phase = "done" =>
+    (phase = "done" /\ AllNodesOK(doc)) =>
         LET I == IdealNow
         IN /\ result \in {I.res} \cup (IF I.res \in LimitKinds /\ ~RefsOK(I.refs, FullDoc) THEN {"ref"} ELSE {})
            /\ result = "ok" => Proj(out) = I.items /\ NoStale(out)
+
+\* ... and in every document the part rendered BEFORE the first deferred writer agrees with
+\* the reference meaning: the prefix of items up to the first node that both refers forward
+\* and writes is untouched
+FirstEsc(list) == IF \E i \in 1..Len(list) : HasRef(list[i]) /\ EscWrites(list[i])
+                  THEN CHOOSE i \in 1..Len(list) : HasRef(list[i]) /\ EscWrites(list[i])
+                                                   /\ \A j \in 1..(i - 1) : ~(HasRef(list[j]) /\ EscWrites(list[j]))
+                  ELSE Len(list) + 1
+PrefixIdeal ==
+    (phase = "done" /\ result = "ok" /\ IdealNow.res = "ok") =>
+        LET I == IdealNow
+            before == {n.id : n \in SeqToSet(Flatten(SubSeq(doc, 1, FirstEsc(doc) - 1)))}
+            P(items) == SelectSeq(items, LAMBDA it : it.id \in before)
+        IN P(Proj(out)) = P(I.items)
 
 \* C14: without references every probe expression is evaluated exactly once
 EvalOnce ==
